@@ -1027,6 +1027,8 @@ class dictable(Dict):
             raise ValueError('cannot groupby on no keys, left with original dictable')
         elif len(by) == len(self.keys()):
             raise ValueError('cannot groupby on all keys... nothing left to group')
+        if grp in by:
+            raise ValueError('the column of sub-tables cannot be called %s, that is one of the keys %s: choose another grp'%(grp, by))
         xs,ys = self._listby(by)
         rtn = type(self)(xs, by)
         rtn[grp] = [type(self)({k: [self[k][i] for i in y] for k in self.keys() if k not in by}) for y in ys]
